@@ -202,3 +202,20 @@ def fifo_ends(R, E, F, fn, paths, rule, queues=None):
             else:
                 R.ok(rule, '%s|%s|%s' % key)
     return len(seen)
+
+
+# ---------------------------------------------------------- comparison facts
+_MIRROR = {'Lt': ('Gt', False), 'Gt': ('Lt', False), 'Le': ('Ge', False), 'Ge': ('Le', False)}
+_NEG = {'Lt': 'Ge', 'Ge': 'Lt', 'Gt': 'Le', 'Le': 'Gt'}
+
+
+def cmp_fact(E, facts, op, a, b):
+    """truth of `a op b` (op in Lt/Le/Gt/Ge) under the path facts, recognising every equivalent
+    spelling: the mirrored operator with swapped operands and the negated operator.  1 / 0 / None"""
+    from rl import const_of
+    for o, x, y, neg in ((op, a, b, False), (_MIRROR[op][0], b, a, False),
+                         (_NEG[op], a, b, True), (_MIRROR[_NEG[op]][0], b, a, True)):
+        k = const_of(E, facts, ('bin', o, x, y))
+        if k is not None:
+            return (1 - k) if neg else k
+    return None
